@@ -184,6 +184,9 @@ def run(pid, spec, tier, seed, wd, only, rebase, t_start):
             if is_cover:
                 (covers_hit if res['status'] == 'FAILURE' else covers_missed).append(key)
                 continue
+            if res['status'] != 'SUCCESS' and match_known(known, {'key': key, 'job': job}):
+                # a listed known finding: reported below as KNOWN-FINDING, not counted as an obligation of the proof
+                fails.append((key, res)); continue
             job_obl += 1
             kind = key.split('.post:')[0] + '.postcondition' if '.post:' in key else key
             kk = re.sub(r'\.\d+$', '', kind)
@@ -249,6 +252,10 @@ def run(pid, spec, tier, seed, wd, only, rebase, t_start):
             # C16: a built-in safety check that appears (and fails) in a function under contract is undefined behaviour
             # reachable under type-invariant-only preconditions, whether or not the same kind of check existed before
             v['in_baseline'] = True
+        kf0 = match_known(known, v)
+        if kf0:
+            # a listed finding is identified by (job, obligation): it is reported as KNOWN-FINDING whether or not the obligation was ever discharged
+            known_seen.append(kf0); continue
         if not v['in_baseline'] and not rebase:
             undecided.append((v['job'].jobname, 'obligation %s failed but is not in the baseline of discharged obligations' % v['key'], ''))
             continue
